@@ -30,7 +30,7 @@ def fmt_sites(fx, scope):
             d = t[1].get("d") or ""
             if "fmt::rt::Argument" not in d or not d.endswith(("new_display", "new_lower_exp", "new_upper_exp")):
                 continue
-            if "f64" not in [fx.tys(x) for x in t[1].get("targs", [])]:
+            if not any(fx.tys(x).lstrip("&") == "f64" for x in t[1].get("targs", [])):
                 continue
             # the args array this Argument goes into: a from_usize argument built right after it (same array) is the `prec$`
             nxt = t[4]
@@ -46,8 +46,117 @@ def fmt_sites(fx, scope):
                     nxt = tt[4]
                     continue
                 break
+            if not has_prec:
+                has_prec = bool(template_options(fx, f, bi, t))
             out.append((f, bi, t, d.split("::")[-1], has_prec))
     return out
+
+
+PLAIN = [None]      # the byte `format_args!` uses for a placeholder without options, learnt from the fixture on every run
+
+
+def learn_plain(ctl, plain_fn="c15::print::second_printer", fixed_fn="c15::print::fixed0"):
+    """the template encoding is rustc's own: read the byte of a plain `{}` off a fixture function, and check that `{:.0}` differs"""
+    def tmpl(p):
+        g = ctl.fns.get(p)
+        for bi, t in (g.calls() if g else []):
+            if (t[1].get("d") or "").endswith("Arguments::<'a>::new"):
+                return template_bytes(g, t)
+        return None
+    a, b = tmpl(plain_fn), tmpl(fixed_fn)
+    if a and b and len(a) == 2 and a[1] == 0 and b[0] != a[0] and a[0] >= 0x80 and b[0] >= 0x80:
+        PLAIN[0] = a[0]
+    return PLAIN[0]
+
+
+def template_bytes(f, t):
+    a = t[2][0] if t[2] else None
+    for _ in range(4):
+        if a is None or a[0] == "k":
+            break
+        ds = f.defs().get(a[1][0], [])
+        if len(ds) != 1 or ds[0][1] == "T":
+            return None
+        rv = ds[0][2]
+        if rv[0] == "ref":
+            a = ["c", [rv[2][0], []]]
+        elif rv[0] == "use":
+            a = rv[1]
+        else:
+            return None
+    if a is not None and a[0] == "k" and isinstance(a[2], dict) and "bytes" in a[2]:
+        return bytes.fromhex(a[2]["bytes"])
+    return None
+
+
+def placeholders(tb):
+    """[True if the i-th placeholder carries formatting options] - literal runs are a length byte followed by the text"""
+    out = []
+    i = 0
+    while i < len(tb):
+        b = tb[i]
+        if b == 0:
+            break
+        if b >= 0x80:
+            if b == PLAIN[0]:
+                out.append(False)
+                i += 1
+            else:
+                out.append(True)
+                # options follow in an encoding this parser does not know: everything after counts as optioned
+                out += [True] * 8
+                break
+        else:
+            i += 1 + b
+    return out
+
+
+def template_options(fx, f, bi, t):
+    """does the placeholder this Argument is formatted through carry options (`{:.0}`, `{:>8}`, `{:+}` ...)?"""
+    if PLAIN[0] is None:
+        return False
+    # ordinal of this Argument among the arguments of the same format_args!, and the Arguments::new that consumes them
+    ordinal = 0
+    b = bi
+    seen = 0
+    cur = t
+    while seen < 12:
+        nb = cur[4]
+        if nb is None or nb < 0:
+            return False
+        tt = f.blocks[nb]["t"]
+        if tt[0] != "call":
+            return False
+        d = tt[1].get("d") or ""
+        if d.endswith("Arguments::<'a>::new"):
+            tb = template_bytes(f, tt)
+            if tb is None:
+                return False
+            ph = placeholders(tb)
+            # arguments created before this one in the same array
+            k = 0
+            pb = None
+            for b0, t0 in f.calls():
+                if "fmt::rt::Argument" in (t0[1].get("d") or "") and t0[4] == (bi if pb is None else pb):
+                    pass
+            idx = args_before(f, bi)
+            return idx < len(ph) and ph[idx]
+        cur = tt
+        seen += 1
+    return False
+
+
+def args_before(f, bi):
+    """number of Argument::new_* calls chained immediately before block `bi` (same args array)"""
+    n = 0
+    cur = bi
+    for _ in range(12):
+        prev = [b0 for b0, t0 in f.calls() if t0[4] == cur and "fmt::rt::Argument" in (t0[1].get("d") or "")]
+        if len(prev) != 1:
+            break
+        n += 1
+        cur = prev[0]
+    return n
 
 
 def fmt_operand(f, op, depth=0):
@@ -135,6 +244,10 @@ def rules(fx, ck, scope, printer_root="value::number_to_string", pre=""):
         if kind == "new_display" and not has_prec:
             top = f.parent if f.closure else f.path
             okp = top in cone or not ok   # a derived value is R4's business
+            # not conversions of a script number to script-visible text: developer-facing Debug output, and the text of an error message
+            if not okp and (" as std::fmt::Debug>::fmt" in top or flows_to_error(fx, f, t)):
+                ck.instance("R5.one-printer", "%s: Display of an f64 in %s" % (f.path, "Debug output" if "Debug>" in top else "an error message"), F.short_span(t[6]), nontrivial=False)
+                continue
             ck.instance("R5.one-printer", "%s: plain Display of an f64" % f.path, F.short_span(t[6]), ok=okp)
             if not okp:
                 ck.finding("R5.one-printer", "R5.one-printer/%s" % top, F.short_span(t[6]),
@@ -146,6 +259,21 @@ def rules(fx, ck, scope, printer_root="value::number_to_string", pre=""):
             ck.finding("R6.tie-rounding", "R6.tie-rounding/%s" % top, F.short_span(t[6]),
                        "`%s` rounds with Rust's precision formatting, which rounds an exact tie to even; ECMAScript picks the larger candidate: "
                        "`(2.5).toFixed(0)` gives '2' (spec: '3'), `(0.5).toFixed(0)` '0' (spec: '1'), `(2.5).toPrecision(1)` '2' (spec: '3')" % top)
+
+
+def flows_to_error(fx, f, t):
+    """the formatted text becomes the message of a JsError (the text of error messages is not specified)"""
+    from c09 import ancestors
+    for b2, t2 in f.calls():
+        d2 = t2[1].get("d") or ""
+        if "JsError::" in d2 or "error::JsError" in d2:
+            for a in t2[2]:
+                if a[0] in ("c", "m"):
+                    for l in ancestors(f, a[1][0]):
+                        for db, si, rv in f.defs().get(l, []):
+                            if si == "T" and (rv[1].get("d") or "").endswith("fmt::format") and f.dominates(t[4] if t[4] is not None and t[4] >= 0 else 0, db):
+                                return True
+    return False
 
 
 LIMITS = {"i64": 9.3e18, "u64": 1.9e19, "i32": 2.2e9, "u32": 4.3e9, "isize": 9.3e18, "usize": 1.9e19, "i128": 1.8e38, "u128": 3.5e38, "i16": 32768.0, "u16": 65536.0,
